@@ -792,9 +792,9 @@ def cases(tier, seed):
     for n in roots:
         for kind in ('int', 'gauss'):
             for depth in ((1, 2, 3, 4) if big else (1, 2, 3)):
-                for s in range(12 if big else 4):
+                for s in range(40 if big else 12):
                     yield 'C01.tree.random', dict(n=n, seed=s, depth=depth, kind=kind, tensor=True)
-                for _ in range(12 if big else 3):
+                for _ in range(40 if big else 10):
                     yield 'C01.tree.random', dict(n=n, seed=int(g.integers(1 << 30)), depth=depth, kind=kind, tensor=True)
             for s in range(4 if big else 2):
                 yield 'C01.tree.random', dict(n=n, seed=s, depth=2, kind=kind, tensor=False)
